@@ -346,6 +346,30 @@ def judge(box, h, res, rep, case):
                     wrong_source_forgeries += 1
     register_until(sd_mark)
     giveups_until(t_sd)
+    # What arrives after shutdown() was called but before its sweep has run (same instant, later position in the
+    # log) may still be processed normally: for the requests outstanding at the call, such an event is an
+    # alternative, equally legitimate explanation of their outcome.
+    alt = {}
+    for e in events:
+        if e.seq < sd_mark:
+            continue
+        if e.t > box["t_shutdown_done"] + 1e-9:
+            break
+        if e.kind == "error" and e.dst == C:
+            for i, st in state.items():
+                if st == "out" and reg[i]["dst"] == e.src:
+                    alt.setdefault(i, ("fail", "icmp", e.t))
+        elif e.kind == "deliver" and e.dst == C and e.msg is not None:
+            m = e.msg
+            if m.type == rc.RST:
+                for i, d in by_i.items():
+                    if d["dst"] == e.src and d["mid"] == m.mid and state.get(i) == "out":
+                        alt.setdefault(i, ("fail", "rst", e.t))
+            if rc.is_response(m.code) and m.type in (rc.CON, rc.NON, rc.ACK):
+                for i, st in state.items():
+                    if st == "out" and i in by_i and by_i[i]["token"] == m.token and by_i[i]["dst"] == e.src and by_i[i]["first_seq"] < e.seq:
+                        alt.setdefault(i, ("result", m.payload, e.t, e.seq))
+                        break
     for i, st in list(state.items()):
         if st == "out":
             state[i] = ("fail", "shutdown", t_sd)
@@ -365,6 +389,11 @@ def judge(box, h, res, rep, case):
         if exc is not None and not isinstance(exc, error.Error):
             rep.violation("non-library-exception/" + type(exc).__name__, "a request failed with an exception not derived from the library's error base class", wit(request=i, exc=repr(exc)), case)
             continue
+        if st[0] == "fail" and st[1] == "shutdown" and i in alt:
+            a = alt[i]
+            if (a[0] == "result" and result is not None and result[0] == a[1]) or (a[0] == "fail" and result is None and isinstance(exc, error.NetworkError if a[1] == "icmp" else error.Error) and not isinstance(exc, error.LibraryShutdown)):
+                rep.count("outcome_explained_by_event_inside_shutdown_window")
+                continue
         if st[0] == "result":
             rep.monitor("result_is_first_matching")
             if result is None:
